@@ -49,6 +49,15 @@ def file_effects(rep, R):
     rep.check(need <= whys and any("write_all" in w for w in whys), R, "fixture:file-effects", "effect_sites misses file-mutating calls of the fixture: found %s" % sorted(whys), instance={"fixture": "effects()", "found": sorted(whys)})
 
 
+def output_discipline(rep, R):
+    import orch
+    p = prog()
+    pw = [c for c in orch.partial_writes(p, crates=("pasfmt_canary",))]
+    rep.check(len(pw) == 1, R, "fixture:partial-write", "partial_writes misses the `Write::write` call of the fixture (found %d)" % len(pw), instance={"fixture": "short_write()"})
+    ul = [c for c in orch.unlocked_stdout_handles(p, crates=("pasfmt_canary",))]
+    rep.check(len(ul) == 1, R, "fixture:unlocked-stdout", "unlocked_stdout_handles misses the `BufWriter::new(stdout())` of the fixture (found %d)" % len(ul), instance={"fixture": "short_write()"})
+
+
 def panic_and_progress(rep, R_panic, R_loop):
     import panic
     from progress import Progress
@@ -80,7 +89,7 @@ CANARIES = {
     "C01": lambda rep: trait_impls(rep, "C01.c"),
     "C04": lambda rep: panic_and_progress(rep, "C04.b", "C04.a"),
     "C15": lambda rep: statics_and_types(rep, "C15.c"),
-    "C16": lambda rep: file_effects(rep, "C16.a"),
+    "C16": lambda rep: (file_effects(rep, "C16.a"), output_discipline(rep, "C16.i")),
     "C18": lambda rep: statics_and_types(rep, "C18.a"),
 }
 
